@@ -11,7 +11,7 @@
 //!              x every path x the builder option cross product of chmod_b and chown_b + chmod, chown, mkfile_m, mkdir_m.
 //! After every call that changed the state, `mode`, `is_exec`, `is_readonly`, `owner` and `entry` are asked on the
 //! same (mutated) instance; they are logged as a group of their own whose pre-state is that post-state (set sym: every
-//! entry, once per distinct post-state and worker; set tree: the entries that changed, every 3rd / 2nd new post-state -
+//! entry, once per distinct post-state and worker; set tree: the entries that changed, every 4th / 2nd new post-state -
 //! the observers are also asked on every pre-state).
 use std::collections::HashSet;
 
@@ -207,7 +207,7 @@ fn set_sym(cx: &mut Ctx, thorough: bool, seed: u64, worker: u64, workers: u64) {
     let sg = subseqs(&["u", "g", "o", "a"]);
     let sp = subseqs(&["r", "w", "x"]);
     let single = singles();
-    let ndouble = if thorough { 300 } else { 400 };
+    let ndouble = if thorough { 300 } else { 250 };
     let mut unit: u64 = 0;
     let setup_of = |kind: &str, perm: u32| -> (Vec<Value>, &'static str) {
         match kind {
@@ -247,11 +247,12 @@ fn set_sym(cx: &mut Ctx, thorough: bool, seed: u64, worker: u64, workers: u64) {
         vec!["d", "f", "a", ":", "u", "+", "=", "r", "x", ",", "q"]
     };
     let mut raw = all_strings(&alpha, 4);
+    let (n3, nexh) = (all_strings(&alpha, 3).len(), raw.len());
     raw.extend(edge_cases());
     let mut rng = StdRng::seed_from_u64(seed.wrapping_mul(104729).wrapping_add(17));
     let full = ["d", "f", "a", ":", "u", "g", "o", "+", "-", "=", "r", "w", "x", ",", ":", ","];
     let nraw = raw.len();
-    for _ in 0..(if thorough { 40_000 } else { 3_000 }) {
+    for _ in 0..(if thorough { 40_000 } else { 2_000 }) {
         // random strings biased towards the shape of a clause
         let n = rng.gen_range(5..=9);
         let mut s = String::new();
@@ -270,7 +271,14 @@ fn set_sym(cx: &mut Ctx, thorough: bool, seed: u64, worker: u64, workers: u64) {
     let raw_perms: Vec<u32> = if thorough { vec![0o644, 0o000, 0o750] } else { vec![0o644, 0o070] };
     for kind in kinds.iter() {
         for (pi, &perm) in raw_perms.iter().enumerate() {
-            let list: &[String] = if pi == 0 || thorough { &raw[..] } else { &raw[nraw - edge_cases().len()..] };
+            // quick tier: a link accepts everything (one class): exhaustive part only up to length 3 there
+            let list: Vec<String> = if pi > 0 && !thorough {
+                raw[nexh..nraw].to_vec()
+            } else if !thorough && *kind == "link" {
+                raw[..n3].iter().chain(raw[nexh..].iter()).cloned().collect()
+            } else {
+                raw.clone()
+            };
             for block in list.chunks(2000) {
                 unit += 1;
                 if (unit - 1) % workers != worker {
@@ -382,13 +390,15 @@ fn tree_calls(p: &str, full: bool, thorough: bool) -> Vec<Value> {
         for fo in ["", "F"] {
             for (oi, (of, m, n)) in octals.iter().enumerate() {
                 for (si, (sf, sym)) in syms.iter().enumerate() {
-                    if full || oi == 0 || si < 3 {
+                    if full || oi == 0 || si < if thorough { 3 } else { 2 } || (si == 2 && oi == 2) {
                         v.push(call_b("chmod_b", p, "", *m, *n, sym, &format!("{}{}{}{}", r, fo, of, sf)));
                     }
                 }
             }
-            for who in ["u", "g", "o", "ug"] {
-                v.push(call_b("chown_b", p, "", 5, 7, "", &format!("{}{}{}", r, fo, who)));
+            for (wi, who) in ["u", "o", "g", "ug"].iter().enumerate() {
+                if full || thorough || wi < 2 {
+                    v.push(call_b("chown_b", p, "", 5, 7, "", &format!("{}{}{}", r, fo, who)));
+                }
             }
             v.push(call_b("chown_b", p, "", 5, 7, "", &format!("{}{}", r, fo))); // nothing to set
         }
@@ -437,7 +447,7 @@ fn set_tree(cx: &mut Ctx, thorough: bool, seed: u64, worker: u64, workers: u64) 
         // a seeded sample of the rest: children on both sides, two links
         let mut wide = wide;
         wide.shuffle(&mut rng);
-        for t in wide.into_iter().take(25).chain(two.into_iter().take(25)) {
+        for t in wide.into_iter().take(12).chain(two.into_iter().take(24)) {
             work.push((t, 1, false));
         }
     }
@@ -479,7 +489,7 @@ fn main() {
     let mut cx = Ctx { out: Out::create(arg_or("out", "/dev/stdout")), prog: Progress::from_env(), id: 0, seen_post: HashSet::new(), steps: 0, qgroups: 0,
         qops: if set == "sym" { vec!["mode", "is_exec", "is_readonly", "owner", "entry"] } else { vec!["mode", "is_exec", "is_readonly", "owner"] },
         query_all: set == "sym",
-        post_every: if set == "sym" { 1 } else if thorough { 2 } else { 3 } };
+        post_every: if set == "sym" { 1 } else if thorough { 2 } else { 4 } };
     match set.as_str() {
         "sym" => set_sym(&mut cx, thorough, seed, worker, workers),
         "tree" => set_tree(&mut cx, thorough, seed, worker, workers),
